@@ -410,6 +410,9 @@ class Exec:
             return IntV(v.hi() if m.group(2) == "MAX" else v.lo(), bits, signed)
         # named constant of the crate (e.g. formatter::YEAR): evaluate its MIR body
         name = strip_generics(text)
+        segs = name.split("::")
+        if len(segs) >= 2 and segs[-2] in self.enums and segs[-1] in self.enums[segs[-2]]:
+            return EnumV(segs[-2], segs[-1], [])
         pm = re.search(r"(promoted\[\d+\])$", text)
         if pm and (fn.name + "::" + pm.group(1)) in self.consts:
             name = fn.name + "::" + pm.group(1)
@@ -585,6 +588,16 @@ class Exec:
         if m and m.group(1) in self.BINOPS:
             a, b = [self.operand(parse_operand(x), env, fn) for x in split_top(m.group(2))]
             return self.binop(m.group(1), a, b)
+        if m and m.group(1) in ("PtrMetadata", "Len"):
+            txt = m.group(2)
+            v = self.operand(parse_operand(txt), env, fn) if txt.startswith(("copy ", "move ", "const ")) else self.read_place(parse_place(txt), env, fn)
+            while isinstance(v, RefV):
+                v = v.v
+            if isinstance(v, VecV):
+                return IntV(len(v.items), 64, False)
+            if isinstance(v, TupleV):
+                return IntV(len(v.f), 64, False)
+            raise Unsupported("%s of %r" % (m.group(1), v))
         if m and m.group(1) in ("Not", "Neg"):
             a = self.operand(parse_operand(m.group(2)), env, fn)
             if m.group(1) == "Not":
@@ -604,6 +617,14 @@ class Exec:
         return self.aggregate(s, env, fn)
 
     def aggregate(self, s, env, fn):
+        if s.startswith("{closure@"):
+            m2 = re.match(r"^\{closure@[^}]*\} \{(.*)\}$", s, re.S)
+            fields = []
+            if m2:
+                for part in split_top(m2.group(1)):
+                    fm = re.match(r"^\w+: (.*)$", part.strip(), re.S)
+                    fields.append(self.operand(parse_operand(fm.group(1)), env, fn))
+            return StructV("closure", fields)
         fields = None
         head = None
         if s.endswith(")"):
@@ -671,6 +692,8 @@ class Exec:
                 return z3.Xor(a, b)
             raise Unsupported("bool binop " + op)
         if isinstance(a, IntV):
+            if not isinstance(b, IntV):
+                raise Unsupported("binop %s on %r and %r" % (op, a, b))
             x, y = a.t, b.t
             if op in ("AddWithOverflow", "SubWithOverflow", "MulWithOverflow"):
                 r = {"Add": x + y, "Sub": x - y, "Mul": x * y}[op[:3]]
@@ -744,6 +767,17 @@ class Exec:
             if isinstance(base, (SymV, StructV)):
                 return path.store(base.path, pl[2], pl[3], val)
             raise Unsupported("store through a reference to %r in %s" % (base, fn.name))
+        if pl[0] == "deref" and pl[1][0] == "local":
+            ref = env.get(pl[1][1])
+            loc = None
+            r = ref
+            while isinstance(r, RefV):
+                if r.loc is not None:
+                    loc = r.loc
+                    break
+                r = r.v
+            if loc is not None:
+                return path.store(loc[0], loc[1], "deref-assign", val)
         self.write_place(pl, val, env, fn)
         return path
 
@@ -842,8 +876,11 @@ class Exec:
         if m:
             raise Unsupported("indirect call through %s must be resolved by the terminator" % name)
         tyargs = getattr(caller, "tyargs", None)
-        if tyargs and re.match(r"^<T as ", name):
-            name = "<" + tyargs[0] + name[2:]
+        if tyargs:
+            sub = {"T": tyargs[0]}
+            if len(tyargs) > 1:
+                sub["U"] = tyargs[1]
+            name = re.sub(r"(?<![\w:])(&?)(T|U)(?![\w:])", lambda m_: sub.get(m_.group(2), m_.group(2)), name)
         for rx, h in self.handlers:
             if rx.search(name):
                 res = h(self, name, args, path, depth, caller)
@@ -902,10 +939,10 @@ class Exec:
     def trait_impl(self, name):
         """`<Type as Trait>::method` -> the function of `impl Trait for Type` (Self type read from the source line
         the MIR's `<impl at file:line:..>` points to)"""
-        m = re.match(r"^<([\w:]+) as ([\w:]+)>::(\w+)$", name.replace("::<'_>", "").replace("<'_>", ""))
+        m = re.match(r"^<&?([\w:]+) as ([\w:]+)(?:<&?([\w:]+)>)?>::(\w+)$", name.replace("::<'_>", "").replace("<'_>", ""))
         if not m:
             return None
-        ty, trait, meth = last_seg(m.group(1)), last_seg(m.group(2)), m.group(3)
+        ty, trait, targ, meth = last_seg(m.group(1)), last_seg(m.group(2)), (last_seg(m.group(3)) if m.group(3) else None), m.group(4)
         idx = getattr(self, "_impl_index", None)
         if idx is None:
             idx = {}
@@ -920,18 +957,25 @@ class Exec:
                         line = open(os.path.join(common.REPO, im.group(1)), errors="replace").read().split("\n")[key[1] - 1]
                     except (OSError, IndexError):
                         line = ""
-                    hm = re.match(r"\s*impl(?:<[^>]*>)?\s+(?:([\w:]+)(?:<[^>]*>)?\s+for\s+)?([\w:]+)", line)
-                    idx[key] = (last_seg(hm.group(1)) if hm and hm.group(1) else None, last_seg(hm.group(2)) if hm else None)
+                    hm = re.match(r"\s*impl(?:<[^>]*>)?\s+(?:([\w:]+)(?:<([^>]*)>)?\s+for\s+)?([\w:]+)", line)
+                    idx[key] = (last_seg(hm.group(1)) if hm and hm.group(1) else None, last_seg(hm.group(3)) if hm else None)
+                    self._impl_targ = getattr(self, "_impl_targ", {})
+                    self._impl_targ[key] = last_seg(hm.group(2)) if hm and hm.group(2) else None
             self._impl_index = idx
         cands = []
         for n, f in self.fns.items():
             im = re.search(r"<impl at ([^:>]+):(\d+):\d+: [^>]*>::(\w+)$", n)
             if im and im.group(3) == meth and idx.get((im.group(1), int(im.group(2)))) == (trait, ty):
-                cands.append(f)
-        return cands[0] if len(cands) == 1 else None
+                cands.append((f, getattr(self, "_impl_targ", {}).get((im.group(1), int(im.group(2))))))
+        if len(cands) > 1:
+            cands = [c for c in cands if c[1] == targ]
+        return cands[0][0] if len(cands) == 1 else None
 
     def ret(self, path, value):
         yield Outcome("return", path, value)
 
     def ret_w(self, path, value, writes):
         yield Outcome("return", path, value, writes=writes)
+
+    def ret_panic(self, path, msg, where):
+        yield Outcome("panic", path, msg=msg, where=where)
